@@ -214,7 +214,7 @@ def run_job(job, workdir, want_trace=True):
         r.reason = 'vacuous: zero obligations generated'
     elif any('undefined function should be unreachable' in o.desc for o in r.failed):
         # the extracted body calls a function the job has neither a body nor a contract for (new helper, renamed callee): an extraction limit, undecided, never a violation
-        r.reason = 'call of a function without body or contract in this job (extraction limit): ' + '; '.join(o.at for o in r.failed if 'undefined function' in o.desc)[:200]
+        r.reason = 'call of a function without body or contract in this job (extraction limit): ' + '; '.join(o.loc for o in r.failed if 'undefined function' in o.desc)[:200]
         r.failed = []
     elif any(o.desc.startswith('SHAPE:') for o in r.failed):
         # the code changed the *shape* of an algorithm the ghost model relies on: undecided, never a violation
